@@ -22,12 +22,12 @@ def dense_posterior(mu0, S0, Ms, bs, Ss, ys):
     return mu, S, lml
 
 
-def case_regression(N, Dw, Dy, sub):
-    label = f"regression/N{N}/Dw{Dw}/Dy{Dy}/{sub}"
+def case_regression(N, Dw, Dy, sub, pdiag=False):
+    label = f"regression/N{N}/Dw{Dw}/Dy{Dy}/{sub}" + ("/pdiag" if pdiag else "")
     def fn(m):
         rng = gen.rng_path(m.seed, label)
         fails = []
-        prior = mk_pdf(m, rng, 1, Dw)
+        prior = mk_pdf(m, rng, 1, Dw, diag=pdiag)      # pdiag: the prior is a GaussianDiagPDF, the likelihood factors are not diagonal
         Ms = rng.standard_normal((N, Dy, Dw)); bs = rng.standard_normal((N, Dy)); Ss = gen.pd_batch(rng, N, Dy)
         ys = gen.points(rng, N, Dy)
         mu_ref, S_ref, lml_ref = dense_posterior(prior.mu[0], prior.Sigma[0], list(Ms), list(bs), list(Ss), list(ys))
@@ -85,14 +85,14 @@ def case_regression(N, Dw, Dy, sub):
     return Case(label, fn)
 
 
-def case_kalman(T, Dz, Dy, sub):
-    label = f"kalman/T{T}/Dz{Dz}/Dy{Dy}/{sub}"
+def case_kalman(T, Dz, Dy, sub, pdiag=False):
+    label = f"kalman/T{T}/Dz{Dz}/Dy{Dy}/{sub}" + ("/pdiag" if pdiag else "")
     def fn(m):
         rng = gen.rng_path(m.seed, label)
         fails = []
         A = gen.orth(rng, Dz) * 0.9 + 0.05 * rng.standard_normal((Dz, Dz)); b = 0.3 * rng.standard_normal(Dz); Q = gen.pd(rng, Dz, 0.2, 1.0)
         C = rng.standard_normal((Dy, Dz)); d = rng.standard_normal(Dy); Rn = gen.pd(rng, Dy, 0.2, 1.0)
-        p0 = mk_pdf(m, rng, 1, Dz)
+        p0 = mk_pdf(m, rng, 1, Dz, diag=pdiag)
         ys = gen.points(rng, T, Dy)
         params = dict(T=T, Dz=Dz, Dy=Dy)
         state = m.cond(1, Dz, Dz, A[None], b[None], Sigma=Q[None])
@@ -146,4 +146,8 @@ def cases(seed, tier):
     kg = [(4, 2, 1), (3, 1, 2)] + [(int(rng.integers(2, 13)), int(rng.integers(1, 4)), int(rng.integers(1, 4))) for _ in range(1 if tier == "quick" else 8)]
     for i, (T, Dz, Dy) in enumerate(kg):
         out.append(case_kalman(T, Dz, Dy, i))
+    out.append(case_regression(3, 3, 2, "d", pdiag=True))
+    out.append(case_kalman(3, 2, 2, "d", pdiag=True))
+    if tier != "quick":
+        out.append(case_regression(5, 2, 1, "d2", pdiag=True))
     return seeded(out, seed)
